@@ -14,6 +14,7 @@ import (
 
 	"github.com/pkg/sftp"
 
+	"verifharness/lib"
 	"verifharness/wire"
 )
 
@@ -233,6 +234,7 @@ func (xfSrcErr) Error() string { return "source failed (injected)" }
 // hold (optional) keeps one scripted peer + client alive across the cases of a job: a fresh
 // peers.NewClient per case costs a 2 MB request channel.
 func xfExec(cs xfCase, real *xfReal, srcDir string, hold *xfPeerHold) (out xfOutcome) {
+	kase := lib.NewCase(xfClass(cs.Srv) + "/" + cs.API) // hang account of this case (lib/budget.go)
 	if hold != nil {
 		xfInflight(hold.slot, cs)
 	} else {
@@ -290,7 +292,7 @@ func xfExec(cs xfCase, real *xfReal, srcDir string, hold *xfPeerHold) (out xfOut
 		}
 	}
 	var f *sftp.File
-	if ok, _ := xfGuard(func() { f, out.OpenErr = mode.Open(cli, path) }); !ok {
+	if ok, _ := xfGuardK(kase, func() { f, out.OpenErr = mode.Open(cli, path) }); !ok {
 		out.OpenErr = nil
 		out.SetupErr = errors.New("open: " + xfErrHang.Error())
 		return
@@ -307,7 +309,7 @@ func xfExec(cs xfCase, real *xfReal, srcDir string, hold *xfPeerHold) (out xfOut
 	if out.OpenErr != nil || mode.Refuse {
 		// nothing to transfer through; what the name holds now is all there is to look at
 		if f != nil {
-			xfGuard(func() { f.Close() })
+			xfGuardK(kase, func() { f.Close() })
 		}
 		if peer != nil {
 			out.FileAfter = peer.Get()
@@ -365,7 +367,7 @@ func xfExec(cs xfCase, real *xfReal, srcDir string, hold *xfPeerHold) (out xfOut
 	}
 	var sink bytes.Buffer
 	buf := make([]byte, cs.Len)
-	ok, pn := xfGuard(func() {
+	ok, pn := xfGuardK(kase, func() {
 		switch cs.API {
 		case "ReadAt":
 			n, err := f.ReadAt(buf, cs.Off)
@@ -412,7 +414,7 @@ func xfExec(cs xfCase, real *xfReal, srcDir string, hold *xfPeerHold) (out xfOut
 		out.Log = peer.Log()
 		peer.SetBehaviour(func(o *xfPeerOpts) { o.Window = 1; o.Fail = nil; o.StatFail = nil })
 	}
-	if ok, _ := xfGuard(func() {
+	if ok, _ := xfGuardK(kase, func() {
 		out.OffAfter, out.OffErr = f.Seek(0, io.SeekCurrent)
 		out.CloseErr = f.Close()
 	}); !ok {
